@@ -1,9 +1,15 @@
-(* Extraction of the definitions GENERATED from src/mbi/domain.py (Gen/Domain_gen.v); ExtrOcamlBasic only. *)
-From Coq Require Import List Arith.
+(* Extraction of the definitions GENERATED from the Python source (Gen/Domain_gen.v from src/mbi/domain.py, Gen/BP_gen.v from
+   GraphicalModel.belief_propagation) together with the few model functions the driver needs to read inputs / print tables.
+   ExtrOcamlBasic only; the module is called Model so that ocaml/io.ml can be shared with the main runner. *)
+From Coq Require Import List Arith ZArith QArith Qcanon.
 From Coq Require Import extraction.ExtrOcamlBasic.
-Require Import PGM.Base.PyList PGM.Gen.Domain_gen.
+Require Import PGM.Base.Alg PGM.Base.Sums PGM.Base.Qnn PGM.Base.PyList PGM.Base.PyFactor PGM.Model.Domain PGM.Model.Dataset PGM.Model.Factor PGM.Model.BP.
+Require Import PGM.Gen.Domain_gen PGM.Gen.BP_gen.
 Extraction Language OCaml.
-Extraction "gen_model.ml"
+Extraction "model.ml"
+  QcSR QnnSF Qc_of Qnn_of Qc_num Qc_den qv
+  Domain.lookup Domain.attrs Factor.tbl_of Factor.asg_of Dataset.cells BP.mat BP.lk
   DomainGen.init DomainGen.project DomainGen.marginalize DomainGen.axes DomainGen.transpose DomainGen.invert DomainGen.merge
   DomainGen.contains DomainGen.size DomainGen.sort DomainGen.canonical DomainGen.dunder_contains DomainGen.dunder_getitem
-  DomainGen.dunder_len DomainGen.dunder_eq.
+  DomainGen.dunder_len DomainGen.dunder_eq
+  BP_gen.belief_propagation.
